@@ -135,7 +135,10 @@ def proof_stage(prop, tier, log):
                 res["problems"].append("only %d Print Assumptions for %d theorems" % (n_print, len(theorems)))
             if not [p for p in res["problems"]]:
                 res["discharged"] = len(theorems)
-    if tier == "thorough" and rc == 0 and not res["problems"]:
+    if tier == "thorough" and rc == 0 and not res["problems"] and prop.get("coqchk", "run") == "skip":
+        log.append("== coqchk skipped for this property: " + prop.get("coqchk_note", ""))
+        res["checker_cmd"] += "   (coqchk not run: %s)" % prop.get("coqchk_note", "")
+    elif tier == "thorough" and rc == 0 and not res["problems"]:
         vo = prop["props_file"].replace("/", ".")[:-2]
         rc3, out3, dt3 = sh("coqchk -silent -o -Q . SF SF." + vo, cwd=COQ, timeout=6000)
         log.append("== coqchk (%.1fs) rc=%d\n%s" % (dt3, rc3, out3[-3000:]))
